@@ -383,6 +383,9 @@ def run(prog, rep):
     # character, so the set of characters it selects for escaping has to be ASCII (C09.ESCINV)
     from .C09 import rule_escinv
     rule_escinv(prog, rep)
+    # the compiler's parse entry points decode every string token (unwraps that rely on the lexer)
+    from . import lexer_dfa
+    lexer_dfa.run(prog, rep)
     if rep.tier == "thorough":
         from . import inv_compiler
         inv_compiler.run(prog, rep)
